@@ -238,6 +238,25 @@ def printed_tuples(out, tag):
 
 
 # ---------------------------------------------------------------------------
+CRASHES = []
+
+
+def _salvage(out):
+    """Keep the complete lines of a trace whose writer died; True if a usable trace remains."""
+    try:
+        data = open(out, "rb").read()
+    except OSError:
+        return False
+    cut = data.rfind(b"\n")
+    if cut < 0:
+        return False
+    data = data[:cut + 1]
+    if data.count(b"\n") < 2:
+        return False
+    open(out, "wb").write(data)
+    return True
+
+
 def run_harness(module, mode, out, **kw):
     cmd = [harness_bin(kw.get("binary", module)), mode, "-out", out]
     for k in ("in", "seed", "n", "len", "cfg"):
@@ -247,6 +266,14 @@ def run_harness(module, mode, out, **kw):
     t0 = time.time()
     env = dict(os.environ, GOCOVERDIR=COVDIR) if COVDIR else None
     p = subprocess.run(cmd, capture_output=True, text=True, timeout=kw.get("timeout", 3600), env=env)
+    if p.returncode != 0 and kw.get("tolerate") and _salvage(out):
+        # the driver died (typically on a state it did not expect, which only a broken tree produces);
+        # what the real code did up to that point was recorded and is validated like any other trace.
+        # Without a clause failure in it the run is inconclusive (ModuleCheck.run_core), never a pass.
+        msg = f"harness {module} {mode} died rc={p.returncode}: {(p.stderr or '').strip().splitlines()[0:1]}"
+        CRASHES.append(msg)
+        log(f"[harness] {msg}; the recorded part of the execution is validated")
+        return time.time() - t0
     if p.returncode != 0:
         raise Inconclusive(f"harness {module} {mode} failed rc={p.returncode}:\n{p.stdout[-2000:]}{p.stderr[-4000:]}")
     return time.time() - t0
